@@ -467,12 +467,14 @@ type cliObsEv struct {
 	seen cliSeen
 	resp *kmip.ResponseMessage
 	err  error
+	snap any // what `snap` extracted from the response BEFORE the caller got it (callers may modify it in place)
 }
 
 type cliObs struct {
 	mu     sync.Mutex
 	events []cliObsEv
 	inject func(req *kmip.RequestMessage) (*kmip.ResponseMessage, error, bool)
+	snap   func(resp *kmip.ResponseMessage) any
 }
 
 var errCliInjected = errors.New("injected transport failure")
@@ -491,7 +493,11 @@ func (o *cliObs) mw(next kmipclient.Next, ctx context.Context, msg *kmip.Request
 		resp, err = next(ctx, msg)
 	}
 	o.mu.Lock()
-	o.events = append(o.events, cliObsEv{seen: cliSeenOf(msg), resp: resp, err: err})
+	ev := cliObsEv{seen: cliSeenOf(msg), resp: resp, err: err}
+	if o.snap != nil && resp != nil {
+		ev.snap = o.snap(resp)
+	}
+	o.events = append(o.events, ev)
 	o.mu.Unlock()
 	return resp, err
 }
@@ -1720,6 +1726,8 @@ func respReplay(ctx *Ctx, env *respEnv, l string) {
 				return
 			}
 		}
+	case len(f) == 4 && f[0] == "resp.signer":
+		sgReplay(env, f)
 	case len(f) == 3 && f[0] == "resp.enumstr", len(f) == 2 && f[0] == "resp.registered":
 		respTables(ctx)
 	}
@@ -1889,6 +1897,8 @@ func runResp(ctx *Ctx) {
 			}
 		}
 	}
+	// the composite helper Signer / Sign (client_signer.go)
+	runSignerCases(env)
 	env.close()
 	// the discovery exchange at connect time
 	dialItems := respItems(cliOpDiscover, true, true)
